@@ -9,6 +9,7 @@ EXTENDS KnownFindings, Json
 
 CONSTANTS MaxDepth,     \* number of calls
           UsePrefixes,     \* prefixes used by the calls ("" = default namespace)
+          UriSet,       \* "app": application namespaces; "builtin": the PROV / XSD namespace URIs as well
           Emit,         \* "all": print one TR line per explored transition; "walk": final steps of walks
           WalkLen       \* length of a finished walk (simulation)
 
@@ -19,7 +20,7 @@ View == <<ms, Len(hist)>>
 A  == <<"a">>
 AB == <<"a", "b">>
 C  == <<"c">>
-NsURIs == {A, AB, C}
+NsURIs == IF UriSet = "builtin" THEN {A, ProvNS, XsdNS} ELSE {A, AB, C}
 Locals == {<<"x">>, <<"b", "x">>}
 Scopes == {"doc", "bun"}
 
